@@ -139,23 +139,28 @@ structure DiffEntry where
   path : Bytes
 deriving DecidableEq, Repr
 
+/-- one iteration of the first loop of `DiffWithTree`: a tree entry that is not staged is `deleted`,
+    one staged with another id is `modified` -/
+def diffStep (es : List Entry) (acc : Res (List DiffEntry)) (t : Entry) : Res (List DiffEntry) :=
+  acc.bind fun l =>
+    match getEntry es t.path with
+    | .crash => .crash
+    | .notFound => .ok (l ++ [⟨.deleted, t.id, t.path⟩])
+    | .found i =>
+      match es[i]? with
+      | none => .crash
+      | some e => if e.id = t.id then .ok l else .ok (l ++ [⟨.modified, e.id, e.path⟩])
+
+/-- the second loop: an index entry is `new` when the tree has no *file* at that path -/
+def isNew (tree : List Node) (e : Entry) : Bool :=
+  match getNode tree e.path with
+  | some n => !n.kids.isEmpty
+  | none => true
+
 /-- `Index.DiffWithTree` (repaired `GetNode`; an index path that names a *directory* of the tree is a
     new file): first the tree's entries (deleted / modified), then the index's (new) -/
 def diffWithTree (es : List Entry) (tree : List Node) : Res (List DiffEntry) :=
-  let fromTree : Res (List DiffEntry) := (flattenTree tree).foldl (fun acc t =>
-      acc.bind fun l =>
-        match getEntry es t.path with
-        | .crash => .crash
-        | .notFound => .ok (l ++ [⟨.deleted, t.id, t.path⟩])
-        | .found i =>
-          match es[i]? with
-          | none => .crash
-          | some e => if e.id = t.id then .ok l else .ok (l ++ [⟨.modified, e.id, e.path⟩]))
-    (.ok [])
-  fromTree.map fun l =>
-    l ++ (es.filter fun e =>
-            match getNode tree e.path with
-            | some n => !n.kids.isEmpty
-            | none => true).map fun e => ⟨.new, e.id, e.path⟩
+  ((flattenTree tree).foldl (diffStep es) (.ok [])).map fun l =>
+    l ++ (es.filter (isNew tree)).map fun e => ⟨.new, e.id, e.path⟩
 
 end IndexOps
